@@ -16,6 +16,7 @@ import re
 import grd
 import lin
 import pan
+import panlin
 import summ
 import summ2
 import sym
@@ -131,8 +132,13 @@ def run(run_, ctx):
             run_.bad("ANCHOR", need, "helper not found")
 
     def discharge(s):
-        if s.kind == "assert:BoundsCheck" and "fmt_owned_dmt_to_buf" in summ.fn_key(s.fn):
+        if s.kind == "assert:BoundsCheck":
             e = s.ev
+            try:
+                if panlin.discharged(s.path, e):
+                    return "guard on the path implies index < len (LIN)"
+            except Exception:
+                pass
             pcn = [(norm(c), t, k) for c, t, k in s.path.pc[:e["pc"]]]
             if grd.prove(pcn, [], lin.gt(norm(e["len"]), norm(e["index"]))):
                 return "guard: !vec.is_empty() dominates vec[0] (LIN)"
@@ -222,14 +228,30 @@ def run(run_, ctx):
     else:
         run_.bad("X", "discover_tys", "walker root not found by signature")
     run_.floor("X", 27)
-    # ---- N: names are rendered: the formatter's appends to the buffer, read with its closures analysed in place ---------------------------
+    # ---- N: names are rendered: the formatter's appends to the buffer, read with all its helpers/closures analysed in place ------------------
     if len(fmtroot) == 1:
         root = fmtroot[0]
-        pol = lambda g, ev: g.crate == "postcard_schema" and "schema::fmt::" in g.canon and g.canon != root.canon
-        eng = sym.Engine(F, max_visits=3, inline=pol, models=sym.SLICE_MODELS, max_depth=10)
+        local = lambda g: g.crate == "postcard_schema" and "schema::fmt::" in g.canon
+        pol = lambda g, ev: local(g) and g.canon != root.canon
+        eng = sym.Engine(F, max_visits=3, inline=pol, models=sym.SLICE_MODELS, max_depth=12)
         dmt = [v["name"] for v in sc.adts["postcard_schema::schema::owned::OwnedDataModelType"]["variants"]]
-        st_ok, en_ok, fld = [], [], []
+        st_ok, en_ok, fld, var_inline = [], [], [], []
         APPEND = ("add_assign", "push_str")
+        # ways a &str becomes (part of) a String
+        SINKS = APPEND + ("from", "to_string", "to_owned", "into", "clone", "write_str")
+
+        def is_rec(e):
+            # a call that stayed a call inside the formatter module: the recursion into a nested schema
+            cal = e["callee"] or {}
+            cn = (cal.get("resolved") or {}).get("canon") or cal.get("canon") or ""
+            return cal.get("krate") == "postcard_schema" and "schema::fmt::" in cn
+
+        def subject_path(e, argn):
+            for a in e["args"]:
+                fp = field_path(a)
+                if fp and fp[0] == "arg%d" % argn and len(fp) > 1:
+                    return fp
+            return None
         for p in eng.run(root):
             if p.status not in ("return", "cut"):
                 continue
@@ -245,8 +267,8 @@ def run(run_, ctx):
             for e in tbl.residual_calls(p):
                 if e["name"] in APPEND and len(e["args"]) == 2:
                     seq.append(("app", field_path(e["args"][1])))
-                elif root.canon in ((e["callee"] or {}).get("canon"), ((e["callee"] or {}).get("resolved") or {}).get("canon")):
-                    seq.append(("rec", field_path(e["args"][0])))
+                elif is_rec(e):
+                    seq.append(("rec", subject_path(e, 1) or ()))
             has_name = ("app", ("arg1", "as " + name, "name")) in seq
             (st_ok if name == "Struct" else en_ok).append(has_name)
             if name == "Struct":
@@ -258,30 +280,37 @@ def run(run_, ctx):
                     elif kind == "rec" and pth and pth[-1] == "ty":
                         fld.append(last_name == pth[:-1])
                         last_name = None
+            else:
+                var_inline.append(any(kind == "app" and pth and pth[-1] == "name" and "variants" in pth for kind, pth in seq))
         run_.check(bool(st_ok) and all(st_ok), "N", "struct name + fields", "a top-level struct must render its own name on every path", root.where())
         run_.check(bool(en_ok) and all(en_ok), "N", "enum name + variants", "a top-level enum must render its own name on every path", root.where())
         run_.check(len(fld) >= 3 and all(fld), "N", "field names", "every named field must be rendered with its name right before its type (first and subsequent fields)", root.where(),
                    detail="%d field renderings on the explored paths, each preceded by the field's name" % len(fld))
-        # variants go through a mapping closure &OwnedVariant -> String: name first, then the payload
-        vcl = [f for f in fns if f.canon.startswith(root.canon + "::{closure") and f.argc == 2 and "OwnedVariant" in f.locals[2]["ty"]]
+        # variants are rendered by whatever function or closure of the formatter takes an &OwnedVariant (usually a mapping closure
+        # &OwnedVariant -> String), or in place inside the loop over the variants: the name first, then the payload
+        vcl = [f for f in fns if local(f) and f.canon != root.canon and any("OwnedVariant" in l["ty"] and "[" not in l["ty"] for l in f.locals[1:f.argc + 1])]
         okv = False
         for f in vcl:
-            eng2 = sym.Engine(F, max_visits=3, inline=pol, models=sym.SLICE_MODELS, max_depth=10)
+            vi = [i for i in range(1, f.argc + 1) if "OwnedVariant" in f.locals[i]["ty"]][0]
+            eng2 = sym.Engine(F, max_visits=3, inline=pol, models=sym.SLICE_MODELS, max_depth=12)
             good = []
             for p in eng2.run(f):
                 if p.status not in ("return", "cut"):
                     continue
                 seq = []
                 for e in tbl.residual_calls(p):
-                    if e["name"] in APPEND and len(e["args"]) == 2:
-                        fp = field_path(e["args"][1])
-                        if fp and fp[-1] == "name":
-                            seq.append("name")
-                    if any("data" in field_path(a) for a in e["args"]) and e["name"] not in APPEND:
+                    fps = [field_path(a) for a in e["args"]]
+                    fps = [fp for fp in fps if fp and fp[0] == "arg%d" % vi]
+                    if e["name"] in SINKS and any(fp[-1] == "name" for fp in fps):
+                        seq.append("name")
+                    elif any("data" in fp for fp in fps) and e["name"] not in ("deref", "as_ref", "index", "len"):
                         seq.append("data")
                 good.append(bool(seq) and seq[0] == "name")
             okv = okv or (bool(good) and all(good))
-        run_.check(okv, "N", "variant name before payload", "each variant must render its name and then its data", root.where())
+        if not vcl:
+            okv = bool(var_inline) and any(var_inline)
+        run_.check(okv, "N", "variant name before payload", "each variant must render its name and then its data", root.where(),
+                   detail="%d variant-rendering function(s)/closure(s)" % len(vcl))
     else:
         run_.bad("N", "fmt_owned_dmt_to_buf", "formatter root not found by signature")
     run_.floor("N", 4)
